@@ -34,13 +34,15 @@ pub fn main(args: &Args) -> i32 {
         msg: 6,
         redeliver: 10,
         restart: 1,
+        // refused rivals of a commit that is applied (and re-delivered) later
+        rogue_commit: 2,
         reinvite: true,
         ..Weights::default()
     };
     let spec = Spec {
         id: "C07",
         level: "exploration",
-        rule: "C01/C02-style plans with explicit re-deliveries (plus the re-offering of every event during quiescence); each re-delivery of an event whose earlier hand-over took effect at that client is judged by full before/after fingerprint equality; non-trivial = the client's MLS state changed between first handling and the re-delivery; distinct = distinct plans".into(),
+        rule: "C01/C02-style plans with explicit re-deliveries (plus the re-offering of every event during quiescence) and forged commits that receivers refuse (rivals of the commits applied and re-delivered later); each re-delivery of an event whose earlier hand-over took effect at that client is judged by full before/after fingerprint equality; non-trivial = the client's MLS state changed between first handling and the re-delivery; distinct = distinct plans".into(),
         assumptions: vec![
             "'took effect' = an earlier hand-over returned an application message, a commit, a pending proposal or an auto-commit".into(),
             "the returned result value itself is free".into(),
